@@ -216,7 +216,9 @@ impl KeyId {
     /// Return the first 8 hex digits of the key id
     pub fn prefix(&self) -> String {
         assert!(self.0.len() >= 8);
-        self.0[0..8].to_string()
+        // not a byte slice: a key id read from untrusted metadata may hold
+        // multi-byte characters, and slicing inside one would panic
+        self.0.chars().take(8).collect()
     }
 }
 
